@@ -217,12 +217,12 @@ func genC19(c *fw.Ctx) {
 											nodes = append(nodes, n("GET", "/first").WithParen().WithKids(n("200", "any")))
 										}
 										decl := []*doc.Node{n("TAG", "@g").WithAnn("Group G"), n("TAG", "@k").WithKids(n("Description").WithBody("about k"))}
-									// a declared tag that has the automatic name of the URL's first segment: the
-									// tagless interactions on that path belong to it, and it keeps its title
-									declU := !undeclared && (m1+m2+ui)%2 == 1
-									if declU {
-										decl = append(decl, n("TAG", "@u").WithAnn("U group"))
-									}
+										// a declared tag that has the automatic name of the URL's first segment: the
+										// tagless interactions on that path belong to it, and it keeps its title
+										declU := !undeclared && (m1+m2+ui)%2 == 1
+										if declU {
+											decl = append(decl, n("TAG", "@u").WithAnn("U group"))
+										}
 										if !declAfter {
 											nodes = append(nodes, decl...)
 										}
@@ -292,10 +292,10 @@ func genC19(c *fw.Ctx) {
 										}
 										c.Count("documents_accepted_and_compared", 1)
 										titles := map[string]string{"@g": "Group G", "@k": "@k"}
-									if declU {
-										titles["@u"] = "U group"
-									}
-									if bad := checkTags(o.JSON, exp, titles); bad != "" {
+										if declU {
+											titles["@u"] = "U group"
+										}
+										if bad := checkTags(o.JSON, exp, titles); bad != "" {
 											c.Violate("tags-wrong", "C19:tags:"+firstWordsN(bad, 2), label+": "+bad, map[string]interface{}{"text": text})
 										} else {
 											c.Sample("tags "+proto, 2, map[string]interface{}{"label": label, "text": text})
